@@ -59,6 +59,20 @@ struct FileInner {
     synced_size: AtomicU64
 }
 
+impl FileInner {
+    /// Append has failed after `size` was advanced to `reserved_end`: nothing or only a part of the data
+    /// is in the file. Sets `size` back to the real file length, so that the next record is written (and
+    /// addressed) right after the bytes that are really there. This matters for files opened in append
+    /// mode, where the kernel ignores the offset of a positional write and always writes at the real end.
+    fn resync_size_after_failed_append(&self, reserved_end: u64, e: IOError) -> IOError {
+        if let Ok(metadata) = self.std_file.metadata() {
+            // No update if someone has reserved space after us
+            let _ = self.size.compare_exchange(reserved_end, metadata.len(), Ordering::SeqCst, Ordering::SeqCst);
+        }
+        e
+    }
+}
+
 #[derive(PartialEq, Eq)]
 enum LockAcquisitionResult {
     Acquired,
@@ -74,7 +88,7 @@ impl File {
         self.inner.synced_size.load(Ordering::SeqCst)
     }
     pub(crate) fn dirty_bytes(&self) -> u64 {
-        self.size() - self.synced_size()
+        self.size().saturating_sub(self.synced_size())
     }
 
     pub(crate) async fn write_append_writable_data<R: Send + 'static>(
@@ -89,14 +103,16 @@ impl File {
             Self::inplace_sync_call(move || {
                 let offset = file_inner.size.fetch_add(len, Ordering::SeqCst);
                 let (res, data) = c.create(offset);
-                Self::write_data(&file_inner.std_file, offset, res)?;
+                Self::write_data(&file_inner.std_file, offset, res)
+                    .map_err(|e| file_inner.resync_size_after_failed_append(offset + len, e))?;
                 Ok(data)
             })
         } else {
             Self::background_sync_call(move || {
                 let offset = file_inner.size.fetch_add(len, Ordering::SeqCst);
                 let (res, data) = c.create(offset);
-                Self::write_data(&file_inner.std_file, offset, res)?;
+                Self::write_data(&file_inner.std_file, offset, res)
+                    .map_err(|e| file_inner.resync_size_after_failed_append(offset + len, e))?;
                 Ok(data)
             })
             .await
@@ -121,11 +137,13 @@ impl File {
             Self::inplace_sync_call(move || {
                 let offset = file_inner.size.fetch_add(buf.len() as u64, Ordering::SeqCst);
                 file_inner.std_file.write_all_at(&buf, offset)
+                    .map_err(|e| file_inner.resync_size_after_failed_append(offset + buf.len() as u64, e))
             })
         } else {
             Self::background_sync_call(move || {
                 let offset = file_inner.size.fetch_add(buf.len() as u64, Ordering::SeqCst);
                 file_inner.std_file.write_all_at(&buf, offset)
+                    .map_err(|e| file_inner.resync_size_after_failed_append(offset + buf.len() as u64, e))
             })
             .await
         }
